@@ -302,6 +302,14 @@ func runC01(e *emitter, tier string, seed uint64) {
 		}
 		e.emit("jsonopen "+id+"\x00"+typ+"\x00"+nonce, "jsonopen", hx(id), hx(typ), hx(nonce), hx(open), hx(doc))
 	}
+	// static text that stops inside a character reference, followed by a string (fixed inputs on which the
+	// simplified reference table of the specification and x/net/html agree)
+	amp := c01Sink{"text-after-amp", "verbatim", func(s string) (templ.Component, context.Context) { return tmpl.TextAfterAmpSink(s), context.Background() }}
+	for _, s := range []string{"lt;", "gt;", "amp;", "#34;", "#39;", "x", "<b>", "&", ";", " lt;", "\"'", "l"} {
+		doSink(amp, s)
+	}
+	// whole templates of the markup fragment (composition theorem)
+	c01Compose(e, tier, seed)
 }
 
 var _ = hex.EncodeToString
